@@ -99,8 +99,8 @@ func unitsFor(prog *Program, prop string) []checkUnit {
 	var units []checkUnit
 	for _, key := range sortedKeys(prog.contracts.byKey) {
 		ct := prog.contracts.byKey[key]
-		if ct.Directives["iface"] != nil {
-			continue // assumed contract of an interface method: used at call sites, nothing to verify
+		if ct.Directives["iface"] != nil || ct.Directives["assumed"] != nil {
+			continue // assumed contract (interface method, or a function outside the subset): used at call sites, nothing is verified
 		}
 		serves := false
 		for _, p := range ct.Props {
@@ -332,7 +332,9 @@ func cmdCheck(args []string) int {
 			assumptions["engine note: "+n] = true
 		}
 		for _, k := range rep.UsedContr {
-			if cc := prog.contracts.byKey[k]; cc != nil && cc.Directives["iface"] != nil {
+			if cc := prog.contracts.byKey[k]; cc != nil && cc.Directives["assumed"] != nil {
+				assumptions["ASSUMED contract of a function outside the verified subset (its body is not verified against it): "+k] = true
+			} else if cc != nil && cc.Directives["iface"] != nil {
 				assumptions["ASSUMED contract of an interface method (no body is verified against it): "+k] = true
 			} else {
 				assumptions["callee contract used in place of the body (the callee is its own unit of the properties named in its block): "+k] = true
